@@ -823,7 +823,57 @@ func rulesC14(c *Ctx) {
 				hl = l
 			}
 		}
+		// ... or the ServeHTTP method of a handler type that RequireBearerToken instantiates (the closure's captured
+		// variables are then fields set once, in that literal)
+		var hlit *ast.CompositeLit
+		if hl == nil {
+			ast.Inspect(rb.Body, func(x ast.Node) bool {
+				cl, ok := x.(*ast.CompositeLit)
+				if !ok || hl != nil {
+					return true
+				}
+				if nt := namedOf(rb.TypeOf(cl)); nt != nil && nt.Obj().Pkg() == rb.Pkg.Types {
+					if m := c.P.FuncOf(c.P.LookupFuncObj(pA, nt.Obj().Name(), "ServeHTTP")); m != nil {
+						hl, hlit = m, cl
+					}
+				}
+				return true
+			})
+		}
 		c.Need(hl != nil, "RequireBearerToken: per-request handler literal")
+		// isParam: e denotes RequireBearerToken's parameter p in the handler — the captured variable itself, or a field of
+		// the handler's receiver that the instantiating literal sets to p and nothing else ever writes
+		isParam := func(e ast.Expr, p *types.Var) bool {
+			if p == nil {
+				return false
+			}
+			if hl.ObjOf(e) == types.Object(p) {
+				return true
+			}
+			sel, ok := ast.Unparen(e).(*ast.SelectorExpr)
+			if !ok || hlit == nil || hl.Recv() == nil || hl.ObjOf(sel.X) != types.Object(hl.Recv()) {
+				return false
+			}
+			fld, _ := hl.ObjOf(sel.Sel).(*types.Var)
+			if fld == nil {
+				return false
+			}
+			set := false
+			for _, el := range hlit.Elts {
+				if kv, isKV := el.(*ast.KeyValueExpr); isKV && rb.ObjOf(kv.Key) == types.Object(fld) && rb.ObjOf(kv.Value) == types.Object(p) {
+					set = true
+				}
+			}
+			if !set {
+				return false
+			}
+			for _, f := range c.funcsWithLits(pA) {
+				if len(f.FieldWrites(f.Body, fld, false)) > 0 {
+					return false
+				}
+			}
+			return true
+		}
 		c.touch(hl)
 		hg := hl.Graph()
 		verifyObj := c.FnObj("auth", "", "verify")
@@ -842,7 +892,7 @@ func rulesC14(c *Ctx) {
 		c.Need(vp != nil, "RequireBearerToken: TokenVerifier parameter")
 		okArg := false
 		for _, call := range hl.CallsIn(hl.Body, verifyObj, false) {
-			if len(call.Args) == 3 && hl.ObjOf(call.Args[1]) == types.Object(vp) {
+			if len(call.Args) == 3 && isParam(call.Args[1], vp) {
 				okArg = true
 			}
 		}
@@ -962,7 +1012,7 @@ func rulesC14(c *Ctx) {
 		ast.Inspect(hl.Body, func(x ast.Node) bool {
 			if ce, ok := x.(*ast.CallExpr); ok && hl.Callee(ce) != nil && hl.Callee(ce).FullName() == "fmt.Sprintf" && len(ce.Args) == 2 {
 				if f, ok := hl.ConstString(ce.Args[0]); ok {
-					if f == "resource_metadata=%q" && hl.FieldPath(ce.Args[1]) == "RequireBearerTokenOptions.ResourceMetadataURL" {
+					if sel, isSel := ast.Unparen(ce.Args[1]).(*ast.SelectorExpr); f == "resource_metadata=%q" && isSel && hl.ObjOf(sel.Sel) == types.Object(c.Field(pA, "RequireBearerTokenOptions", "ResourceMetadataURL")) && isParam(sel.X, rb.ParamOfNamed(pA, "RequireBearerTokenOptions")) {
 						src["resource_metadata"] = true
 					}
 					if f == "scope=%q" {
@@ -981,7 +1031,7 @@ func rulesC14(c *Ctx) {
 		optS := optT.Underlying().(*types.Struct)
 		okPass := false
 		for _, call := range hl.CallsIn(hl.Body, c.FnObj(pA, "", "verify"), false) {
-			okPass = len(call.Args) == 3 && hl.ObjOf(call.Args[2]) == types.Object(optsP)
+			okPass = len(call.Args) == 3 && isParam(call.Args[2], optsP)
 		}
 		completeCopy := func(f *Func) (bool, string) {
 			found, ok, miss := false, true, ""
@@ -1038,8 +1088,37 @@ func rulesC14(c *Ctx) {
 			if o == nil || o.IsField() {
 				continue
 			}
-			if !(hl.Lit.Pos() <= o.Pos() && o.Pos() <= hl.Lit.Body.Rbrace) {
+			lo, hi := token.NoPos, token.NoPos
+			if hl.Lit != nil {
+				lo, hi = hl.Lit.Pos(), hl.Lit.Body.Rbrace
+			} else if hl.Decl != nil {
+				lo, hi = hl.Decl.Pos(), hl.Decl.End()
+			}
+			if !(lo <= o.Pos() && o.Pos() <= hi) {
 				bad = o.Name() + " at " + hl.At(w.Stmt)
+			}
+		}
+		if hl.Recv() != nil {
+			// the handler is a method: its receiver is shared by all requests, so it writes none of its fields either
+			for _, w := range Writes(hl.Body, true) {
+				e := ast.Unparen(w.LHS)
+				for {
+					switch x := e.(type) {
+					case *ast.SelectorExpr:
+						e = ast.Unparen(x.X)
+						continue
+					case *ast.IndexExpr:
+						e = ast.Unparen(x.X)
+						continue
+					case *ast.StarExpr:
+						e = ast.Unparen(x.X)
+						continue
+					}
+					break
+				}
+				if e != ast.Unparen(w.LHS) && hl.ObjOf(e) == types.Object(hl.Recv()) {
+					bad = exprStr(w.LHS) + " at " + hl.At(w.Stmt)
+				}
 			}
 		}
 		c.Check(bad == "", "middleware:no-shared-mutable-state", hl, nil, "the per-request closure writes only variables it declares itself (a captured slice or counter would leak state, and race, across requests) %s", bad)
